@@ -235,7 +235,18 @@ async fn server_app(net: Net, s: Scn, o: Shared<Obs>, sp: Spawner) {
                                     g.accepted.push((stream.recv_id().into_inner(), sid(id), Vec::new(), false));
                                     g.accepted.len() - 1
                                 };
-                                sp2.spawn("read-bi", read_all(stream, o2.clone(), idx, ar));
+                                if (stream.recv_id().into_inner() / 4) % 2 == 1 {
+                                    // the way examples/webtransport_server.rs does it: split first, read on the receive half
+                                    let (tx, rx) = h3::quic::BidiStream::<Bytes>::split(stream);
+                                    let o3 = o2.clone();
+                                    sp2.spawn("read-bi-half", async move {
+                                        read_all(rx, o3, idx, ar).await;
+                                        std::future::pending::<()>().await;
+                                        drop(tx);
+                                    });
+                                } else {
+                                    sp2.spawn("read-bi", read_all(stream, o2.clone(), idx, ar));
+                                }
                                 bi = Some(Box::pin(se.accept_bi()));
                             }
                             Ok(Some(AcceptedBi::Request(_req, mut st))) => {
